@@ -30,6 +30,12 @@ ASSUMPTIONS = [
 BINOPS = ["*", "+", "-", "<<", ">>", "&", "|"]
 ENV = {"va": 3, "vb": 0x1234, "vc_1": 0xFF, "vd": 0x10000, "ve": 0, "vn": -5, "a": 0x10, "A": 0x1235, "x": 2, "S": 0x21}
 PRELUDE = "".join(f"{k} := {v}\n" if v >= 0 else f"{k} := 0 - {-v}\n" for k, v in ENV.items())
+# members of named scopes, read by their qualified names (digits and underscores in the member name): known once the scope is closed, i.e.
+# in the contexts that are evaluated when bytes are emitted
+ENV_Q = {"pal.c1": 0x21, "pal.c2x": 7, "gfx.tile16": 0x4000, "pal.b": 5, "gfx._0": 0x1FF}
+PRELUDE += ".scope pal {\nc1 := 0x21\nc2x := 7\nb = 5\n}\n.scope gfx {\ntile16 := 0x4000\n_0 = 0x1ff\n}\n"
+ENV_ALL = {**ENV, **ENV_Q}
+EMISSION_CONTEXTS = {"api", "imm", "direct", "dl", "symbol", "macro", "loop_body", "macro_body_twice", "hollow_scopes"}
 
 _tap: EvalTap | None = None
 
@@ -142,7 +148,7 @@ def systematic() -> list[list[list]]:
         out.append([UN("-"), lit])
         out.append([UN("~"), lit, OP("&"), num(0xFFFF, "x")])
         out.append([num(1), OP("+"), UN("~"), lit])
-    for s in ENV:
+    for s in ENV_ALL:
         out.append([sym(s)])
         out.append([sym(s), OP("*"), num(2), OP("+"), sym("va")])
         out.append([LP, sym(s), RP])
@@ -177,7 +183,7 @@ def random_tree(rng: random.Random, depth: int) -> list[list]:
     c = rng.random()
     if depth <= 0 or c < 0.25:
         if rng.random() < 0.3:
-            return [sym(rng.choice(list(ENV)))]
+            return [sym(rng.choice(list(ENV) if rng.random() < 0.85 else list(ENV_Q)))]
         v = rng.choice([0, 1, 2, 3, 7, 8, 0xFF, 0x100, 0x1234, 0xFFFF, 0x10000, rng.randrange(1 << 16), rng.randrange(1 << 24), rng.randrange(1 << 33)])
         return [num(v, rng.choice("dxxb"), rng.random() < 0.5)]
     if c < 0.45:
@@ -241,7 +247,7 @@ def contexts_for(tokens, value: int | None = None) -> list[str]:
         if value is not None and 0 <= value < 0x10000:
             ctx.append("rmw")       # unsuffixed read-modify-write operand: width follows the value
     if lexable_in_directive(tokens):
-        ctx += ["dl", "assign", "symbol", "macro", "if", "loop_body", "macro_body_twice", "sparse_loop", "hollow_scopes", "loop_local_constant", "after_forward_label_argument", "scope_in_loop", "assigned_in_conditional", "macro_applied_in_loop"]
+        ctx += ["dl", "assign", "symbol", "macro", "if", "loop_body", "macro_body_twice", "sparse_loop", "hollow_scopes", "loop_local_constant", "after_forward_label_argument", "scope_in_loop", "assigned_in_conditional", "macro_applied_in_loop", "symbol_before_reassignment"]
         if value is not None and -2 <= value <= 6:
             ctx.append("for")       # loop bound: the body is assembled max(0, value) times
         if value is not None and 0 <= value < 0x100:
@@ -276,6 +282,9 @@ def program_for(ctx: str, text: str) -> str:
     if ctx == "after_forward_label_argument":
         # an argument that is a plain expression keeps its value during expansion also when an earlier argument names a label defined later
         return head + f".macro mf(pl, pp) {{\n.if pp {{\n.db 1\n}} else {{\n.db 0\n}}\n.dl pp\n.dw pl\n}}\nmf(later_q, {text})\nlater_q:\n"
+    if ctx == "symbol_before_reassignment":
+        # a variable assigned again further down: a `=` symbol, a data directive and an operand that mention it all see the same (final) value
+        return head + f"zv := 1\nzz = ({text}) + zv\nzv := 2\n.dl zz\n.dl ({text}) + zv\nzv := 3\n"
     if ctx == "assigned_in_conditional":
         # a constant set in the branch of a conditional that is taken is read by the statements after the conditional
         return head + f"zq := 1\n.if 1 {{\nzq := ({text})\n}} else {{\nzq := 0\n}}\n.dl zq\n.if 0 {{\nzr := 0\n}} else {{\nzr := ({text}) + 1\n}}\n.dl zr\n"
@@ -311,6 +320,8 @@ def expected_bytes(ctx: str, v: int) -> bytes:
         return le(v + 1, 3) + le(v + 3, 3) + le(v + 5, 3) + le(v + 7, 3)
     if ctx == "after_forward_label_argument":
         return (b"\x01" if v != 0 else b"\x00") + le(v, 3) + le(0x8006, 2)
+    if ctx == "symbol_before_reassignment":
+        return le(v + 3, 3) * 2
     if ctx == "assigned_in_conditional":
         return le(v, 3) + le(v + 1, 3)
     if ctx == "macro_applied_in_loop":
@@ -338,7 +349,7 @@ def check_expr(res: Res, tokens, style: str, rng: random.Random) -> None:
     text = render(tokens, style, rng)
     wit = {"tokens": tokens, "text": text}
     try:
-        exp = rx.evaluate(tokens, ENV)
+        exp = rx.evaluate(tokens, ENV_ALL)
     except rx.Unspecified:
         res.case(None, nontrivial=False)
         res.count("unjudged_unspecified")
@@ -347,7 +358,10 @@ def check_expr(res: Res, tokens, style: str, rng: random.Random) -> None:
     res.case(text, nontrivial=has_op)
     want_texts = tuple(rx.texts(tokens))
     tp = tap()
+    qualified = any(t[0] == "sym" and "." in t[1] for t in tokens)
     for ctx in contexts_for(tokens, exp):
+        if qualified and ctx not in EMISSION_CONTEXTS:
+            continue
         res.count(f"ctx_{ctx}")
         tp.start()
         if ctx == "api":
@@ -355,7 +369,7 @@ def check_expr(res: Res, tokens, style: str, rng: random.Random) -> None:
             from vf.harness import new_program
 
             prog = new_program()
-            for k, v in ENV.items():
+            for k, v in ENV_ALL.items():
                 prog.resolver.current_scope.add_symbol(k, v)
             try:
                 got = eval_expression_str(text, prog.resolver)
@@ -379,6 +393,8 @@ def check_expr(res: Res, tokens, style: str, rng: random.Random) -> None:
         if not mine:
             res.count("tap_eval_saw_nothing")        # the byte oracle below still judges the low bits
         res.count("tap_eval_judged", len(mine))
+        # an evaluation that raised has no value (an early attempt that is repeated later is the assembler's business); values are judged
+        mine = [c for c in mine if not isinstance(c[2], BaseException)]
         bad = [c for c in mine if c[2] != exp]
         if bad:
             res.violate(classify_value(tokens), f"context {ctx}: eval_expression({text!r}) via {bad[0][0]} = {bad[0][2]}, reference {exp}", dict(wit, ctx=ctx, src=src))
@@ -443,7 +459,7 @@ def run_shard(shard: dict) -> Res:
 
 def _safe_eval(tokens):
     try:
-        return rx.evaluate(tokens, ENV)
+        return rx.evaluate(tokens, ENV_ALL)
     except rx.Unspecified as e:
         return f"unspecified ({e})"
 
